@@ -73,7 +73,14 @@ def gen(seed: int, tier: str) -> dict[str, Any]:
         # the device is removed from the registry and added again (its tasks are cancelled) while a context is open
         k = rng.randrange(len(tgs) - 1)
         readd.append(round(tgs[k]["t"] + ctx * rng.choice([0.3, 0.7]), 6))
-    return {"seed": seed, "tier": "S",
+    junk = []
+    if rng.random() < 0.3:
+        # telegrams for the device's address whose payload its type can not decode (logged and dropped): neither 'on' nor
+        # 'off' - they restart no timer and count for nothing
+        for tg in rng.sample(tgs, min(len(tgs), rng.choice([1, 2, 3]))):
+            junk.append({"t": round(tg["t"] + ref * rng.choice([0.3, 0.6, 0.9]), 6),
+                         "p": rng.choice(["bin2", "bin63", "arr1", "arr2"]), "apci": rng.choice(["write", "write", "response"])})
+    return {"seed": seed, "tier": "S", "junk": junk,
             "config": {"kind": kind, "reset": reset, "ctx": ctx, "epoch_base": rng.choice([0.0, 1.7e9]), "batch": 1,
                        "invert": False},
             "ops": tgs, "readd": readd}
@@ -145,6 +152,19 @@ def run(plan: dict[str, Any]) -> dict[str, Any]:
                                loop.soon_iters(k, lambda: send(v, a, d), label="tg")), label="tg")
             else:
                 loop.at(when, (lambda v=tg["v"], a=tg.get("apci", "write"): send(v, a)), label="tg")
+        def send_junk(j):
+            data = {"bin2": None, "bin63": None, "arr1": b"\x01", "arr2": b"\x00\x01"}[j["p"]]
+            if data is None:
+                v = 2 if j["p"] == "bin2" else 63
+                pdu = W.gv_response_small(v) if j["apci"] == "response" else W.gv_write_small(v)
+            else:
+                pdu = W.gv_response(data) if j["apci"] == "response" else W.gv_write(data)
+            R.extra_faults["undecodable_telegram_for_the_device"] += 1
+            stub.deliver(W.cemi_ldata(W.L_DATA_IND, 0x1101, GA_S, tpci_apci=pdu), "junk")
+
+        for j in plan.get("junk") or []:
+            loop.at(t0 + j["t"], (lambda j=j: send_junk(j)), label="junk")
+
         def readd():
             xknx.devices.async_remove(dev)
             xknx.devices.async_add(dev)
